@@ -8,6 +8,7 @@ CONSTANTS
  StoreKind = "uniform"
  Cap = 1
  Strategy = "joint"
+ NOver = 0
  ModelKind = "scalar"
  CommitEarly = FALSE
  MaxCalls = 3
